@@ -1778,6 +1778,7 @@ impl Compiler {
                 args_start,
                 argc,
             });
+            self.builder.emit(Op::AdoptSuperResult { src: dst });
             return Ok(());
         }
 
